@@ -22,7 +22,43 @@ use std::time::Instant;
 
 use hydro_lang::sim::compiled::CompiledSim;
 use serde_json::{Value, json};
-pub use simcore::{SplitMix64, fnv_str, mix};
+
+// (copies of the three simcore primitives used here: this crate is also compiled inside the
+// simulator's trybuild project, whose dependency set must not change behind its back)
+
+/// SplitMix64.
+#[derive(Clone, Debug)]
+pub struct SplitMix64(pub u64);
+impl SplitMix64 {
+    #[inline]
+    pub fn next(&mut self) -> u64 {
+        self.0 = self.0.wrapping_add(0x9E37_79B9_7F4A_7C15);
+        let mut z = self.0;
+        z = (z ^ (z >> 30)).wrapping_mul(0xBF58_476D_1CE4_E5B9);
+        z = (z ^ (z >> 27)).wrapping_mul(0x94D0_49BB_1331_11EB);
+        z ^ (z >> 31)
+    }
+}
+
+/// Mix several integers into one seed (order sensitive); identical to `simcore::mix`.
+pub fn mix(parts: &[u64]) -> u64 {
+    let mut s = SplitMix64(0x243F_6A88_85A3_08D3);
+    let mut acc = 0u64;
+    for &p in parts {
+        s.0 ^= p.wrapping_mul(0x9E37_79B9_7F4A_7C15);
+        acc = acc.rotate_left(17) ^ s.next();
+    }
+    acc
+}
+
+pub fn fnv_str(s: &str) -> u64 {
+    let mut h = 0xcbf2_9ce4_8422_2325u64;
+    for b in s.as_bytes() {
+        h ^= *b as u64;
+        h = h.wrapping_mul(0x0000_0100_0000_01B3);
+    }
+    h
+}
 
 pub const ENGINE: &str = "e5_hydrosim";
 /// `fuzz_repro` builds its byte driver with default options, i.e. `max_len = 4096`: only the
@@ -400,7 +436,7 @@ fn run_guarded(sc: &Scenario<'_>, inp: &RunIn<'_>) -> RunOut {
 /// chunks (a zero byte is the byte driver's own "out of input" answer).
 fn minimise(sc: &Scenario<'_>, seed: u64, bytes: Vec<u8>, class: &str, budget: usize) -> Vec<u8> {
     let mut used = 0;
-    let mut test = |cand: &[u8], used: &mut usize| -> bool {
+    let test = |cand: &[u8], used: &mut usize| -> bool {
         if *used >= budget {
             return false;
         }
